@@ -178,6 +178,14 @@ prop("C20", "exploration", "five reference devices decoding every request chain 
      "Non-trivial iff at least one request/response pair was checked; distinct by hash of (device, configuration, operation list, case).",
      [stage("checked")], [stage("checked"), stage("asan", scale=100, optional=True)])
 
+prop("C08", "exploration", "ordered transport-event log (model transport calls / decoded register writes of the real MMIO and PCI transports) checked by a handshake automaton; device-side feature gates",
+     "Each of the eleven drivers is constructed on eight transport variants for every subset of its relevant feature bits; the ordered log of transport events must be reset -> ACKNOWLEDGE|DRIVER -> features read -> features written (subset of the offer, VERSION_1 accepted when offered, nothing outside the driver's implemented set) -> FEATURES_OK -> queue set-up -> DRIVER_OK with no notification before DRIVER_OK; "
+     "then a short usage script runs against a device that behaves according to the negotiated set, and the device side checks that INDIRECT descriptors, used_event/avail.flags, flush / EDID / emergency-write requests, feature-conditional configuration fields (net status, console size, 9P tag), the network header size and the access_platform argument of every Hal call all follow the negotiated features.",
+     "The table of implemented and feature-gated bits (DESIGN Appendix B) is pinned to this commit (trusted base; a legitimate upstream feature addition needs a one-line table update). The 9P driver documents that it refuses devices without MOUNT_TAG; that refusal (before any configuration read or DRIVER_OK) is accepted.",
+     "a case is (driver, transport, offered feature set): all 2^k subsets of the driver-relevant bits (ring bits 28,29,32,33 + implemented + unimplemented device-specific bits, k <= 9) on the three model transports (plain / no-op queue_unset / legacy layout) with 4 fillings of the irrelevant bits on the plain model, and every 5th subset (thorough: every subset) on MMIO modern, MMIO legacy, SomeTransport(MMIO), PCI, SomeTransport(PCI). "
+     "Non-trivial iff construction reached DRIVER_OK (or the documented refusal); distinct by (driver, transport, offered set).",
+     [stage("checked"), stage("release", scale=1000)], [stage("checked"), stage("release")])
+
 NOT_YET = {}
 import re
 props = [json.loads(l) for l in open(os.path.join(ROOT, "properties.jsonl"))]
@@ -225,7 +233,7 @@ def main():
     print("wrote plan.json, MANIFEST.json:", len(checks), "checks,", len(NOT_YET), "not_applicable")
 
 HOOK_COMMITS = ["3c7b69a"]
-FIX_COMMITS = ["0598fcf", "bc247e1", "811bf5f", "d0efe8d", "71da244", "db6be61", "1b3383f", "56251f9", "86dc6a3", "74ba7fd"]
+FIX_COMMITS = ["0598fcf", "bc247e1", "811bf5f", "d0efe8d", "71da244", "db6be61", "1b3383f", "56251f9", "86dc6a3", "74ba7fd", "cbab019", "ea19641", "6120dbe"]
 
 if __name__ == "__main__":
     main()
